@@ -9,7 +9,7 @@ HARNESS = "rx"
 HARNESS_ARGS = ["c09"]
 ALLOWED_AXIOMS = []
 RUN_IMPORT = "Reactive.GraphRun"
-READY = False
+READY = True
 SHRINK_PREFIX = 1
 valid_case = X.valid_case
 describe = X.describe
@@ -41,7 +41,7 @@ TECHNIQUE = "Coq proof (invariant with ghost cause sets) + differential correspo
 
 
 def generate(rng, tier):
-    n1, n2 = (1500, 1500) if tier == "quick" else (30000, 30000)
+    n1, n2 = (8000, 10000) if tier == "quick" else (80000, 100000)
     for i in range(n1):
         prog = X.gen_program(rng, rng.randint(3, 10), 0, p_always=0.2)
         ops = X.gen_ops(rng, prog, rng.randint(10, 50), w=(0.40, 0.06, 0.54, 0, 0, 0), vals=(0, 1, 1, 2))
